@@ -209,7 +209,7 @@ def gen_hare_oracle(rng, count):
             c['cfg']['quota'] = 3
         # the draws depend on the configuration: record them again
         if c['draws'].startswith('seed'):
-            c03_hare.record(c, 'seed')
+            c03_hare.record(c, 'seed', rng.randint(0, 10 ** 6))
         else:
             c03_hare.record(c, c['draws'], rng.randint(0, 10 ** 6))
         c.pop('_end', None)
